@@ -25,14 +25,21 @@ fn exported(m: &Metrics) -> [u64; 7] {
 
 fn mode_threads(rng: &mut Rng, rounds: u64, nthreads: usize, per_round: u64) {
     // denied-key tracking ON (alternating table sizes per run): the counters must not depend on the key of a request
-    let m = Arc::new(Metrics::builder().max_denied_keys(*rng.pick(&[0usize, 3, 100])).build());
+    let table: usize = arg_value("--table").and_then(|v| v.parse().ok()).unwrap_or_else(|| *rng.pick(&[0usize, 3, 100]));
+    let m = Arc::new(Metrics::builder().max_denied_keys(table).build());
+    // C16 under concurrent recorders: denials per tracked key (keys of at most 256 bytes), summed over all threads
+    let mut truth: HashMap<String, u64> = HashMap::new();
     let mut expect = [0u64; 7];
     let mut prev = counters(&m);
     for round in 0..rounds {
         // each thread gets its own PRNG event list for this round
         let seeds: Vec<u64> = (0..nthreads).map(|_| rng.next()).collect();
-        let barrier = Arc::new(Barrier::new(nthreads));
+        let barrier = Arc::new(Barrier::new(nthreads + 1));
         let mut handles = Vec::new();
+        // a scraper reads /metrics while the recorders run (it holds the table lock for the whole report)
+        let stop = Arc::new(std::sync::atomic::AtomicBool::new(false));
+        let scraper = { let m = Arc::clone(&m); let b = Arc::clone(&barrier); let stop = Arc::clone(&stop);
+            std::thread::spawn(move || { b.wait(); let mut n = 0u64; while !stop.load(Ordering::SeqCst) { let _ = m.export_prometheus(); n += 1; } n }) };
         for t in 0..nthreads {
             let m = Arc::clone(&m);
             let b = Arc::clone(&barrier);
@@ -40,6 +47,7 @@ fn mode_threads(rng: &mut Rng, rounds: u64, nthreads: usize, per_round: u64) {
             handles.push(std::thread::spawn(move || {
                 let mut r = Rng::new(seed);
                 let mut local = [0u64; 7];
+                let mut dk = [0u64; 12];
                 b.wait();
                 for _ in 0..per_round {
                     let tr = match r.below(3) { 0 => Transport::Http, 1 => Transport::Grpc, _ => Transport::Redis };
@@ -47,15 +55,21 @@ fn mode_threads(rng: &mut Rng, rounds: u64, nthreads: usize, per_round: u64) {
                     match r.below(5) {
                         0 => { m.record_error(tr); local[0] += 1; local[ti] += 1; local[6] += 1; }
                         1 => { m.record_request(tr, false); local[0] += 1; local[ti] += 1; local[5] += 1; }
-                        2 => { let k = key_of(r.below(12)); m.record_request_with_key(tr, false, &k); local[0] += 1; local[ti] += 1; local[5] += 1; }
+                        2 => { let id = r.below(12); let k = key_of(id); m.record_request_with_key(tr, false, &k); dk[id as usize] += 1; local[0] += 1; local[ti] += 1; local[5] += 1; }
                         3 => { let k = key_of(r.below(12)); m.record_request_with_key(tr, true, &k); local[0] += 1; local[ti] += 1; local[4] += 1; }
                         _ => { m.record_request(tr, true); local[0] += 1; local[ti] += 1; local[4] += 1; }
                     }
                 }
-                local
+                (local, dk)
             }));
         }
-        for h in handles { let l = h.join().unwrap(); for i in 0..7 { expect[i] += l[i]; } }
+        for h in handles {
+            let (l, dk) = h.join().unwrap();
+            for i in 0..7 { expect[i] += l[i]; }
+            for id in 0..12u64 { let k = key_of(id); if k.len() <= 256 && dk[id as usize] > 0 { *truth.entry(k).or_insert(0) += dk[id as usize]; } }
+        }
+        stop.store(true, Ordering::SeqCst);
+        let scrapes = scraper.join().unwrap();
         // quiescent point: every recorder has been joined
         let c = counters(&m);
         let e = exported(&m);
@@ -65,7 +79,25 @@ fn mode_threads(rng: &mut Rng, rounds: u64, nthreads: usize, per_round: u64) {
         else if e != c { oracle = format!("bad:/metrics text reports {:?} but the counters are {:?}", e, c); }
         else if (0..7).any(|i| c[i] < prev[i]) { oracle = "bad:a counter decreased".into(); }
         prev = c;
-        println!("{{\"mode\":\"threads\",\"round\":{round},\"threads\":{nthreads},\"events\":{},\"counters\":{:?},\"expected\":{:?},\"exported\":{:?},\"oracle\":{:?}}}", per_round * nthreads as u64, c, expect, e, oracle);
+        // C16 at the quiescent point: never overstates; exact while the distinct tracked keys fit the table
+        let mut top_oracle = "ok".to_string();
+        let mx = table.min(10_000);
+        match m.verif_denied_top() {
+            None => { if mx > 0 { top_oracle = "bad:tracking enabled but no table".into(); } }
+            Some(top) => {
+                for (k, n) in &top { if *n > *truth.get(k).unwrap_or(&0) && top_oracle == "ok" { top_oracle = format!("bad:key of {} bytes reported with {} denials, {} were recorded", k.len(), n, truth.get(k).unwrap_or(&0)); } }
+                if truth.len() <= mx && top_oracle == "ok" {
+                    let mut a = top.clone(); a.sort();
+                    let mut b: Vec<(String, u64)> = truth.iter().map(|(k, v)| (k.clone(), *v)).collect(); b.sort();
+                    if a != b {
+                        let diff: Vec<String> = b.iter().filter(|(k, v)| !a.contains(&(k.clone(), *v))).take(3)
+                            .map(|(k, v)| format!("key of {} bytes: {} denials recorded, report shows {:?}", k.len(), v, a.iter().find(|(k2, _)| k2 == k).map(|x| x.1))).collect();
+                        top_oracle = format!("bad:{} distinct denied keys <= table size {} but the report is not exact after the recorders were joined: {}", truth.len(), mx, diff.join("; "));
+                    }
+                }
+            }
+        }
+        println!("{{\"mode\":\"threads\",\"round\":{round},\"threads\":{nthreads},\"table\":{table},\"scrapes\":{scrapes},\"events\":{},\"counters\":{:?},\"expected\":{:?},\"exported\":{:?},\"oracle\":{:?},\"top_oracle\":{:?}}}", per_round * nthreads as u64, c, expect, e, oracle, top_oracle);
     }
 }
 
